@@ -2,7 +2,7 @@
 import z3
 from pyvc.contract import contract, lemma, Int, Bytes, Bool, Const, REGISTRY as _R
 from pyvc import sym
-from pyvc.sym import (And_, Or_, Not_, Implies_, If_, blen, at, cat, slc, unit, beq, be, eq, bytelen, bitlen, nbe, imin, imax, shr, rep,
+from pyvc.sym import (And_, Or_, Not_, Implies_, If_, blen, at, cat, catf, slc, unit, beq, be, eq, bytelen, bitlen, nbe, imin, imax, shr, rep,
                       SInt, SBytes, SBool, T, pow2, axiom)
 from pyvc.interp import SObj, SCallable, ClassRef, PyRaise, EngineLimit
 from pyvc.models import MODELS
@@ -53,7 +53,7 @@ MODELS["hmac.new"] = _hmac_new
 
 def _m_update(ex, obj, args, kw, line):
     if isinstance(obj, HmacObj):
-        obj.buf = cat(obj.buf, args[0])
+        obj.buf = catf(obj.buf, args[0])
         return None
     from pyvc.models import MODELS as M
     return _orig_update(ex, obj, args, kw, line)
@@ -139,9 +139,9 @@ def rfc_init(ex, order, secexp, data, extra, holen):
     v0 = rep(1, holen)
     k0 = rep(0, holen)
     mac = lambda k, m: hmac_term(ex, k, m, holen)
-    k1 = mac(k0, cat(v0, unit(0), x, h1, extra))
+    k1 = mac(k0, catf(v0, unit(0), x, h1, extra))
     v1 = mac(k1, v0)
-    k2 = mac(k1, cat(v1, unit(1), x, h1, extra))
+    k2 = mac(k1, catf(v1, unit(1), x, h1, extra))
     v2 = mac(k2, v1)
     return k2, v2
 
